@@ -330,7 +330,7 @@ def run_c08(tape, tier, res):
     spec = worlds.gen_syn(t, allow_m=True, max_pts=250, pools=["dyadic", "tie", "decimal", "normalised", "mixed"],
                           max_structs=3, max_vars=3)
     flags = {"skip_brute": t.chance(1, 5), "skip_case": t.chance(1, 5)}
-    wr = scratch.fresh_disk()
+    wr = scratch.fresh_disk(scratch.draw_place(t))
     rdir = os.path.join(wr, "Rules", "R")
     worlds.write_ruleset(spec, rdir)
     res.sample = {"flags": flags, "ruleset": worlds.spec_summary(spec)}
@@ -484,7 +484,7 @@ def run_c15(tape, tier, res):
         res.rejected = "no_small_omen_level"
         return
     flags = {"skip_brute": False, "skip_case": t.chance(1, 6)}
-    wr = scratch.fresh_disk()
+    wr = scratch.fresh_disk(scratch.draw_place(t))
     rdir = os.path.join(wr, "Rules", "R")
     worlds.write_ruleset(spec, rdir)
     res.sample = {"flags": flags, "ruleset": worlds.spec_summary(spec)}
@@ -647,9 +647,62 @@ def _deep_job(seed):
     return out
 
 
+def _huge_job(seed):
+    """a world with one pre-terminal of more than a million guesses (a tied group of 1 050 - 1 300 words times the thousand
+    three-digit strings), and quits that arrive while it is being written out: thresholds on the size of a pre-terminal
+    sit there.  Everything the uninterrupted run writes must be written by the sittings together."""
+    import itertools
+    from ..tape import Tape
+    t = Tape(seed=seed)
+    res = RunResult()
+    session.DEFAULT_KNOBS["max_queue_size"] = None
+    letters = "abcdefghijklmnopqrstuvwxyz"
+    words = ["".join(x) for x in itertools.product(letters, repeat=3)]
+    words = t.shuffle(words)
+    nbig = t.between(1150, 1400)
+    pbig = 0.5 / nbig
+    avar = [[repr(0.3), [words[nbig]]], [repr(0.1), [words[nbig + 1], words[nbig + 2]]], [repr(pbig), words[:nbig]]]
+    digits = t.shuffle(["%03d" % i for i in range(1000)])
+    dvar = [[repr(0.0019), digits[900:]], [repr(0.0009), digits[:900]]] if t.chance(1, 2) else [[repr(0.001), digits]]
+    base = t.choice([[["A3D3", "0.7"], ["D3", "0.3"]], [["D3A3", "0.6"], ["A3", "0.3"], ["D3", "0.1"]]])
+    spec = {"kind": "syn", "pool": "huge", "encoding": "utf-8", "uuid": "00000000-0000-4000-8000-000000000888",
+            "vars": {"A3": avar, "D3": dvar, "C3": [["1.0", ["LLL"]]]}, "base": base,
+            "omen": worlds.TRIVIAL_OMEN, "omen_prob": None, "omen_keyspace": None}
+    wr = scratch.fresh_disk()
+    worlds.write_ruleset(spec, os.path.join(wr, "Rules", "R"))
+    flags = {"skip_brute": False, "skip_case": False}
+    U = reference_run(res, "C08", flags)
+    out = {"seed": seed, "violations": [], "cycles": 0, "largest_preterminal": 0, "guesses": 0}
+    if U is not None:
+        sizes = [len(e["lines"]) for e in U]
+        out["largest_preterminal"] = max(sizes)
+        out["guesses"] = sum(sizes)
+        big = max(range(len(U)), key=lambda i: sizes[i])
+        first = U[big]["first_line"]
+        for _ in range(2):
+            # the quit arrives after the g-th guess of the run, somewhere inside the huge pre-terminal
+            g = first + t.choice([1, 1000, t.between(2, sizes[big] - 1), sizes[big] - 1])
+            cuts = [("guess", g)] + ([("pop", t.between(1, 4))] if t.chance(1, 2) else [])
+            problem, seg = run_history(res, U, cuts, flags, wr)
+            out["cycles"] += len(seg)
+            if problem:
+                res.violate("C08", problem[0], problem[1], key=problem[2])
+                break
+    out["violations"] = [v.as_dict() for v in res.violations if v.prop == "C08"]
+    return out
+
+
 def deep_phase(tier, base_seed):
     from .. import bigworld
     out = {"deep_list_worlds": 0, "deep_list_cycles": 0, "deep_list_groups_max": 0, "violations": []}
+    out["huge_preterminal_worlds"] = 0
+    for r in bigworld._fan_out(_huge_job, [(base_seed * 7717 + 41 + i,) for i in range(1 if tier == "quick" else 4)]):
+        out["huge_preterminal_worlds"] += 1
+        out["huge_preterminal_cycles"] = out.get("huge_preterminal_cycles", 0) + r["cycles"]
+        out["huge_preterminal_largest"] = max(out.get("huge_preterminal_largest", 0), r["largest_preterminal"])
+        for v in r["violations"][:1]:
+            v = dict(v, kind="huge_preterminal:" + v["kind"])
+            out["violations"].append({"seed": r["seed"], "tape": [], "violation": v, "case": None})
     jobs = [(base_seed * 8387 + 900 + i,) for i in range(1 if tier == "quick" else 8)]
     for r in bigworld._fan_out(_deep_job, jobs):
         out["deep_list_worlds"] += 1
